@@ -79,6 +79,22 @@ def _has_break(stmts):
     return False
 
 
+class CompRewriter(ast.NodeTransformer):
+    """[EXPR for x in ITER]  ->  __vc.comp(lambda x: EXPR, ITER)   (single generator, no conditions).
+    At run time a concrete iterable gives an ordinary list; a symbolic-length one gives the closure form."""
+
+    def visit_ListComp(self, node):
+        self.generic_visit(node)
+        if len(node.generators) != 1 or node.generators[0].ifs or node.generators[0].is_async:
+            return node
+        g = node.generators[0]
+        if isinstance(g.target, ast.Name):
+            lam = ast.Lambda(args=ast.arguments(posonlyargs=[], args=[ast.arg(arg=g.target.id)], kwonlyargs=[], kw_defaults=[], defaults=[]), body=node.elt)
+        else:
+            return node
+        return ast.Call(func=ast.Attribute(value=ast.Name(id='__vc', ctx=ast.Load()), attr='comp', ctx=ast.Load()), args=[lam, g.iter], keywords=[])
+
+
 class Cutter:
     def __init__(self, cut_ordinals):
         self.k = 0
@@ -242,6 +258,28 @@ class VC:
             return it.__sym_iter__()
         raise Unsupported('cut for-loop over %r' % type(it))
 
+    def comp(self, f, it):
+        from .core import SymList
+        if isinstance(it, SRange):
+            lo, hi = concrete(it.lo), concrete(it.hi)
+            if lo is not None and hi is not None:
+                return [f(v) for v in range(lo, hi)]
+            n = z3.simplify(z3.If(it.hi >= it.lo, it.hi - it.lo, 0)) if concrete(it.lo) != 0 else z3.simplify(z3.If(it.hi >= 0, it.hi, 0))
+            lo_ = it.lo
+            sl = SymList(n, (lambda j: f(wrap(lift(j) + lo_))) if concrete(lo_) != 0 else (lambda j: f(wrap(lift(j)))))
+        elif isinstance(it, SArr) and it.ndim >= 1 and concrete(it.shape_e[0]) is None:
+            sl = SymList(it.shape_e[0], lambda j: f(it[j]))
+        elif isinstance(it, SymList):
+            sl = SymList(it.n, lambda j: f(it.item(j)))
+        else:
+            return [f(v) for v in it]
+        # safety obligations of the element expression, at an arbitrary index
+        c = C()
+        j = c.fresh('cj', I)
+        with c.scoped(z3.And(0 <= j, j < sl.n)):
+            sl.item(SInt(j))
+        return sl
+
     def loop_item(self, k, rng, idx):
         items = getattr(rng, 'items', None)
         if items is None:
@@ -321,6 +359,7 @@ def build(path, qualname, loops, namespace, keep_decorators=False):
     fd.decorator_list = []
     if fd.body and isinstance(fd.body[0], ast.Expr) and isinstance(fd.body[0].value, ast.Constant) and isinstance(fd.body[0].value.value, str):
         fd.body = fd.body[1:] or [ast.Pass()]
+    fd = CompRewriter().visit(fd)
     cutter = Cutter(set(loops))
     fd.body = cutter.rewrite(fd.body)
     missing = [k for k in loops if k >= cutter.nloops]
